@@ -129,6 +129,8 @@ enum St {
     Prep { sql: String, rows: Vec<Row> },
     /// clean close + open + pragmas re-issued
     Reopen,
+    /// Database::checkpoint() (the API call: flush dirty pages to the WAL, truncate the WAL)
+    ApiCheckpoint,
 }
 
 impl St {
@@ -137,6 +139,7 @@ impl St {
             St::Sql { kind, .. } => kind,
             St::Prep { .. } => "prepared_insert",
             St::Reopen => "reopen",
+            St::ApiCheckpoint => "checkpoint",
         }
     }
     fn text(&self) -> String {
@@ -144,6 +147,7 @@ impl St {
             St::Sql { sql, .. } => sql.clone(),
             St::Prep { sql, rows } => format!("PREPARED {} x{} [{}]", sql, rows.len(), rows.iter().map(|r| format!("({})", r.iter().map(|v| short(&v.sql())).collect::<Vec<_>>().join(","))).collect::<Vec<_>>().join(" ")),
             St::Reopen => "-- close cleanly, reopen, re-issue pragmas".into(),
+            St::ApiCheckpoint => "-- Database::checkpoint()".into(),
         }
     }
 }
@@ -244,6 +248,14 @@ impl<'a> Gen<'a> {
     }
     fn push(&mut self, kind: &'static str, sql: String) {
         self.stmts.push(St::Sql { kind, sql, seq: false });
+    }
+    /// one of the three ways to ask for a checkpoint
+    fn checkpoint(&mut self) {
+        match self.rng.below(5) {
+            0 => self.stmts.push(St::ApiCheckpoint),
+            1 => self.push("checkpoint", "PRAGMA wal_checkpoint_stats".into()),
+            _ => self.push("checkpoint", "PRAGMA wal_checkpoint".into()),
+        }
     }
     fn dml(&mut self, t: usize) {
         let name = self.tables[t].name.clone();
@@ -375,7 +387,7 @@ fn gen_history(rng: &mut Rng, max_stmts: usize) -> Hist {
                         g.dml(t2);
                     }
                     if st.checkpoint_in_txn && g.rng.chance(1, 5) {
-                        g.push("checkpoint", "PRAGMA wal_checkpoint".into());
+                        g.checkpoint();
                     }
                     if st.savepoint {
                         if !sp && g.rng.chance(1, 3) {
@@ -395,7 +407,7 @@ fn gen_history(rng: &mut Rng, max_stmts: usize) -> Hist {
                     g.select(t);
                 }
             }
-            18 | 19 if st.checkpoint => g.push("checkpoint", "PRAGMA wal_checkpoint".into()),
+            18 | 19 if st.checkpoint => g.checkpoint(),
             20 if st.reopen => g.stmts.push(St::Reopen),
             21 => {
                 if let Some(t) = late_index.pop() {
@@ -708,6 +720,14 @@ impl Handle {
                 },
             },
             St::Reopen => self.reopen(true),
+            St::ApiCheckpoint => match self.db.as_ref() {
+                None => Obs::skipped(),
+                Some(db) => match catch(|| db.checkpoint()) {
+                    Ok(Ok(_)) => Obs::ok(),
+                    Ok(Err(e)) => Obs::err(&format!("{:#}", e)),
+                    Err(p) => Obs::panic(&p),
+                },
+            },
         };
         self.sample_frames();
         o
@@ -914,26 +934,71 @@ fn same(d: &Option<Diff>, want: &(String, String)) -> bool {
     d.as_ref().map(|d| d.kind == want.0 && d.what == want.1).unwrap_or(false)
 }
 
-/// drop pragmas one at a time, then knock out trigger features one at a time (cumulatively), keeping the same
-/// (kind, what) first difference against the baseline run of the same history
+fn all_features_of(h: &Hist, base: &RunOut) -> Vec<&'static str> {
+    let mut features: Vec<&'static str> = FEATURES.iter().copied().filter(|f| has_feature(h, f)).collect();
+    if base.outs.iter().any(|o| o.status.starts_with("error:")) {
+        features.push("failed_statement");
+    }
+    if !h.explicit_close {
+        features.push("close_by_drop");
+    }
+    features
+}
+
+fn knock_out_any(h: &Hist, base: &RunOut, f: &str) -> Option<Hist> {
+    match f {
+        // statements that fail in the baseline too (typically a multi-row INSERT hitting a duplicate key after some
+        // rows went in): drop them
+        "failed_statement" => {
+            if !base.outs.iter().any(|o| o.status.starts_with("error:")) {
+                return None;
+            }
+            let keep: Vec<St> = h.stmts.iter().enumerate().filter(|(i, _)| !base.outs.get(*i).map(|o| o.status.starts_with("error:")).unwrap_or(false)).map(|(_, s)| s.clone()).collect();
+            Some(Hist { stmts: keep, ..h.clone() })
+        }
+        "close_by_drop" => {
+            if h.explicit_close {
+                return None;
+            }
+            Some(Hist { explicit_close: true, ..h.clone() })
+        }
+        _ => {
+            if !has_feature(h, f) {
+                return None;
+            }
+            Some(knock_out(h, f))
+        }
+    }
+}
+
+/// drop pragmas one at a time, then knock out trigger features one at a time (cumulatively) as long as SOME
+/// difference against the baseline run of the same history remains; what is left names the cause
 fn analyse(dir_a: &Path, dir_b: &Path, h: &Hist, base: &RunOut, pragmas: &[Pragma], d0: &Diff) -> Analysis {
-    let want = (d0.kind.clone(), d0.what.clone());
     let mut runs = 0usize;
     let mut cur_h = h.clone();
     let mut cur_base = base.clone();
     let mut cur_p = pragmas.to_vec();
     let mut cur_d = d0.clone();
     for round in 0..2 {
+        // shortcut: `PRAGMA wal = ON` alone
+        if round == 0 && cur_p.len() > 1 && cur_p[0].name == "wal" && cur_p[0].value == "ON" {
+            let cand = vec![cur_p[0].clone()];
+            runs += 1;
+            let b = run_history(dir_b, &cur_h, &cand);
+            if let Some(d) = first_diff(&cur_h, &cur_base, &b) {
+                cur_p = cand;
+                cur_d = d;
+            }
+        }
         let mut i = 0;
         while i < cur_p.len() && cur_p.len() > 1 {
             let mut cand = cur_p.clone();
             cand.remove(i);
             runs += 1;
             let b = run_history(dir_b, &cur_h, &cand);
-            let d = first_diff(&cur_h, &cur_base, &b);
-            if same(&d, &want) {
+            if let Some(d) = first_diff(&cur_h, &cur_base, &b) {
                 cur_p = cand;
-                cur_d = d.unwrap();
+                cur_d = d;
             } else {
                 i += 1;
             }
@@ -941,48 +1006,31 @@ fn analyse(dir_a: &Path, dir_b: &Path, h: &Hist, base: &RunOut, pragmas: &[Pragm
         if round == 1 {
             break;
         }
-        for f in FEATURES.iter().copied().chain(["failed_statement", "close_by_drop"]) {
-            let cand = match f {
-                // statements that fail in the baseline too (typically a multi-row INSERT hitting a duplicate key
-                // after some rows went in): drop them
-                "failed_statement" => {
-                    if !cur_base.outs.iter().any(|o| o.status.starts_with("error:")) {
-                        continue;
-                    }
-                    let keep: Vec<St> = cur_h.stmts.iter().enumerate().filter(|(i, _)| !cur_base.outs.get(*i).map(|o| o.status.starts_with("error:")).unwrap_or(false)).map(|(_, s)| s.clone()).collect();
-                    Hist { stmts: keep, ..cur_h.clone() }
+        // two passes: a feature that was needed in the first pass may become removable once later ones are gone
+        for pass in 0..2 {
+            let mut changed = false;
+            for f in FEATURES.iter().copied().chain(["failed_statement", "close_by_drop"]) {
+                // knocking out statements can make other statements fail/succeed: look at the current baseline each time
+                let cand = match knock_out_any(&cur_h, &cur_base, f) {
+                    Some(c) => c,
+                    None => continue,
+                };
+                runs += 2;
+                let a = run_history(dir_a, &cand, &[]);
+                let b = run_history(dir_b, &cand, &cur_p);
+                if let Some(d) = first_diff(&cand, &a, &b) {
+                    cur_h = cand;
+                    cur_base = a;
+                    cur_d = d;
+                    changed = true;
                 }
-                "close_by_drop" => {
-                    if cur_h.explicit_close {
-                        continue;
-                    }
-                    Hist { explicit_close: true, ..cur_h.clone() }
-                }
-                _ => {
-                    if !has_feature(&cur_h, f) {
-                        continue;
-                    }
-                    knock_out(&cur_h, f)
-                }
-            };
-            runs += 2;
-            let a = run_history(dir_a, &cand, &[]);
-            let b = run_history(dir_b, &cand, &cur_p);
-            let d = first_diff(&cand, &a, &b);
-            if same(&d, &want) {
-                cur_h = cand;
-                cur_base = a;
-                cur_d = d.unwrap();
+            }
+            if !changed || pass == 1 {
+                break;
             }
         }
     }
-    let mut features: Vec<&'static str> = FEATURES.iter().copied().filter(|f| has_feature(&cur_h, f)).collect();
-    if cur_base.outs.iter().any(|o| o.status.starts_with("error:")) {
-        features.push("failed_statement");
-    }
-    if !cur_h.explicit_close {
-        features.push("close_by_drop");
-    }
+    let mut features = all_features_of(&cur_h, &cur_base);
     if features.iter().any(|f| matches!(*f, "checkpoint_in_txn" | "savepoint" | "rollback")) {
         features.retain(|f| *f != "txn"); // implied
     }
@@ -1060,6 +1108,7 @@ fn hist_full_json(h: &Hist) -> J {
         St::Sql { sql, .. } => json!(sql),
         St::Prep { sql, rows } => json!({"prepare": sql, "execute_with_cached_plan_rows": rows.iter().map(|r| r.iter().map(|v| v.to_json()).collect::<Vec<_>>()).collect::<Vec<_>>()}),
         St::Reopen => json!("<clean close; Database::open; re-issue pragmas>"),
+        St::ApiCheckpoint => json!("<Database::checkpoint()>"),
     }).collect::<Vec<_>>(), "close_style": if h.explicit_close { "Database::close() then drop" } else { "drop only" }, "tiny_threshold": h.tiny_val})
 }
 
@@ -1080,12 +1129,14 @@ struct HistResult {
     /// max-merged by the parent
     maxima: BTreeMap<String, u64>,
     sample: Option<J>,
+    /// job-kind specific payload (the serialised run of a many-files job)
+    extra: Option<J>,
 }
 
 impl HistResult {
     fn to_json(&self, job: usize) -> J {
         json!({"job": job, "idx": self.idx, "kind": self.kind, "evals": self.evals, "nontrivial": self.nontrivial.iter().map(|h| format!("{:x}", h)).collect::<Vec<_>>(),
-            "violations": self.violations.iter().map(|(a, s, d)| json!([a, s, d])).collect::<Vec<_>>(), "counters": self.counters, "maxima": self.maxima, "sample": self.sample})
+            "violations": self.violations.iter().map(|(a, s, d)| json!([a, s, d])).collect::<Vec<_>>(), "counters": self.counters, "maxima": self.maxima, "sample": self.sample, "extra": self.extra})
     }
 }
 
@@ -1112,7 +1163,7 @@ impl Shared {
     }
 }
 
-fn process_history(idx: usize, h: &Hist, cfgs: &[Cfg], sh: &Shared) -> HistResult {
+fn process_history(idx: usize, h: &Hist, cfgs: &[Cfg], sh: &Shared, flush: &mut dyn FnMut(&HistResult)) -> HistResult {
     let mut res = HistResult { idx, kind: "history".into(), ..Default::default() };
     let root = &sh.root;
     let dir_a = root.join(format!("h{}-a", idx));
@@ -1124,21 +1175,24 @@ fn process_history(idx: usize, h: &Hist, cfgs: &[Cfg], sh: &Shared) -> HistResul
         res.violations.push(("baseline".into(), format!("C42/baseline/create_database/{}", o.status), json!({"obs": o.json()})));
         return res;
     }
-    let mut bump = |res: &mut HistResult, k: &str, n: u64| *res.counters.entry(k.to_string()).or_insert(0) += n;
-    bump(&mut res, "statements_executed", base.outs.len() as u64);
-    bump(&mut res, "baseline_statements_ok", base.outs.iter().filter(|o| o.status == "ok").count() as u64);
-    bump(&mut res, "baseline_statements_error", base.outs.iter().filter(|o| o.status.starts_with("error:")).count() as u64);
-    bump(&mut res, "baseline_statements_panic", base.outs.iter().filter(|o| o.status.starts_with("panic:")).count() as u64);
-    for f in FEATURES {
-        if has_feature(h, f) {
-            bump(&mut res, &format!("histories_with_{}", f), 1);
+    let bump = |res: &mut HistResult, k: &str, n: u64| *res.counters.entry(k.to_string()).or_insert(0) += n;
+    if idx < 100_000 {
+        // (the second wave of a history re-runs the same baseline: count it once)
+        bump(&mut res, "history_statements", base.outs.len() as u64);
+        bump(&mut res, "baseline_statements_ok", base.outs.iter().filter(|o| o.status == "ok").count() as u64);
+        bump(&mut res, "baseline_statements_error", base.outs.iter().filter(|o| o.status.starts_with("error:")).count() as u64);
+        bump(&mut res, "baseline_statements_panic", base.outs.iter().filter(|o| o.status.starts_with("panic:")).count() as u64);
+        for f in FEATURES {
+            if has_feature(h, f) {
+                bump(&mut res, &format!("histories_with_{}", f), 1);
+            }
         }
     }
     let explicit_rotation = has_feature(h, "checkpoint") || has_feature(h, "checkpoint_in_txn") || has_feature(h, "reopen");
     let mut seen: BTreeSet<String> = BTreeSet::new();
     let mut solved: Vec<(Analysis, String)> = vec![];
     for cfg in cfgs {
-        if sh.late(1.0) {
+        if sh.late(0.8) {
             bump(&mut res, "configured_runs_skipped_wall_budget", 1);
             continue;
         }
@@ -1155,7 +1209,10 @@ fn process_history(idx: usize, h: &Hist, cfgs: &[Cfg], sh: &Shared) -> HistResul
             bump(&mut res, "runs_with_auto_checkpoint_at_tiny_threshold", 1);
         }
         let d = match first_diff(h, &base, &run) {
-            None => continue,
+            None => {
+                flush(&res);
+                continue;
+            }
             Some(d) => d,
         };
         bump(&mut res, "runs_differing_from_baseline", 1);
@@ -1181,9 +1238,9 @@ fn process_history(idx: usize, h: &Hist, cfgs: &[Cfg], sh: &Shared) -> HistResul
         let an = analyse(&dir_a, &dir_b, h, &base, &pragmas, &d);
         bump(&mut res, "analysis_runs", an.runs as u64);
         let sig = sig_of(&an.pragmas, &an.features, &an.diff);
-        let do_min = !is_known(&sh.known, &sig) && !sh.late(0.6) && sh.claim_minimise(&sig);
+        let do_min = !is_known(&sh.known, &sig) && !sh.late(0.5) && sh.claim_minimise(&sig);
         let (min_h, min_d) = if do_min {
-            let (mh, md, r) = minimise(&dir_a, &dir_b, &an, 100);
+            let (mh, md, r) = minimise(&dir_a, &dir_b, &an, if sh.budget_s < 100.0 { 50 } else { 120 });
             bump(&mut res, "ddmin_runs", r as u64);
             (mh, md)
         } else {
@@ -1202,6 +1259,7 @@ fn process_history(idx: usize, h: &Hist, cfgs: &[Cfg], sh: &Shared) -> HistResul
         });
         res.violations.push(("config_invariance".into(), sig.clone(), detail));
         solved.push((an, sig));
+        flush(&res);
     }
     if idx < 3 {
         res.sample = Some(json!({"history": hist_json(h), "configs": cfgs.iter().map(|c| c.label()).collect::<Vec<_>>()}));
@@ -1340,10 +1398,9 @@ struct MfRun {
     max_frames: u64,
 }
 
-fn mf_observe(hs: &mut [Handle], per_db: usize) -> Vec<(String, String, Obs)> {
+fn mf_observe(h: &mut Handle, lo: usize, hi: usize) -> Vec<(String, String, Obs)> {
     let mut v = vec![];
-    for i in 0..MF_TABLES {
-        let h = &mut hs[i / per_db];
+    for i in lo..hi {
         let name = mf_name(i);
         for (label, sql, seq) in [
             ("rows", format!("SELECT id, k, v FROM {} ORDER BY id", name), true),
@@ -1359,70 +1416,148 @@ fn mf_observe(hs: &mut [Handle], per_db: usize) -> Vec<(String, String, Obs)> {
     v
 }
 
-/// run the logical history on `ndb` databases (tables i -> database i / per_db)
-fn run_many(root: &Path, tag: &str, ops: &[MOp], pragmas: &[Pragma], per_db: usize, explicit_close: bool) -> MfRun {
-    let ndb = (MF_TABLES + per_db - 1) / per_db;
-    let mut out = MfRun::default();
-    let mut hs: Vec<Handle> = vec![];
-    for d in 0..ndb {
-        let dir = root.join(format!("{}-{}", tag, d));
-        let _ = std::fs::remove_dir_all(&dir);
-        match Handle::create(&dir, pragmas, explicit_close) {
-            Ok(h) => hs.push(h),
-            Err(o) => {
-                out.outs.push(o);
-                return out;
-            }
+#[derive(Default)]
+struct DbPart {
+    create_err: Option<Obs>,
+    outs: Vec<(usize, Obs)>,
+    fin: Vec<(String, String, Obs)>,
+    reopen: Option<Obs>,
+    after: Vec<(String, String, Obs)>,
+    pragma_errs: Vec<(String, Obs)>,
+    max_frames: u64,
+    max_mapped: usize,
+    files_on_disk: usize,
+}
+
+/// one database holding tables lo..hi: executes the ops routed to it (and every broadcast op)
+fn run_many_db(dir: &Path, ops: &[MOp], lo: usize, hi: usize, pragmas: &[Pragma], explicit_close: bool, measure: bool) -> DbPart {
+    let mut part = DbPart::default();
+    let _ = std::fs::remove_dir_all(dir);
+    let mut h = match Handle::create(dir, pragmas, explicit_close) {
+        Ok(h) => h,
+        Err(o) => {
+            part.create_err = Some(o);
+            return part;
         }
-    }
+    };
+    let mut done = 0usize;
     for (n, op) in ops.iter().enumerate() {
-        let o = match op.table {
-            Some(i) => {
-                let h = &mut hs[i / per_db];
+        match op.table {
+            Some(t) if t < lo || t >= hi => continue,
+            Some(_) => {
                 let o = h.exec(&op.sql, op.seq);
                 h.sample_frames();
-                o
+                part.outs.push((n, o));
             }
             None => {
-                // broadcast: all must agree; the combined outcome is the first non-ok one
-                let mut comb = Obs::ok();
-                for h in hs.iter_mut() {
-                    let o = h.exec(&op.sql, false);
-                    if o.status != "ok" && comb.status == "ok" {
-                        comb = o;
+                let o = h.exec(&op.sql, false);
+                part.outs.push((n, o));
+            }
+        }
+        done += 1;
+        if measure && done % 24 == 0 {
+            part.max_mapped = part.max_mapped.max(mapped_files(&h.path));
+        }
+    }
+    part.fin = mf_observe(&mut h, lo, hi);
+    if measure {
+        part.max_mapped = part.max_mapped.max(mapped_files(&h.path));
+        part.files_on_disk = count_files(&h.path);
+    }
+    let r = h.reopen(false);
+    if r.status == "ok" {
+        part.after = mf_observe(&mut h, lo, hi);
+    }
+    part.reopen = Some(r);
+    part.pragma_errs = h.pragma_errs.clone();
+    part.max_frames = h.max_frames;
+    let _ = h.close();
+    let _ = std::fs::remove_dir_all(&h.path);
+    part
+}
+
+/// run the logical history on `ndb` databases (tables i -> database i / per_db); the databases of a split run are
+/// independent of each other and run on their own threads
+fn run_many(root: &Path, tag: &str, ops: &[MOp], pragmas: &[Pragma], per_db: usize, explicit_close: bool) -> MfRun {
+    let ndb = (MF_TABLES + per_db - 1) / per_db;
+    let parts: Vec<DbPart> = if ndb == 1 {
+        vec![run_many_db(&root.join(format!("{}-0", tag)), ops, 0, MF_TABLES, pragmas, explicit_close, true)]
+    } else {
+        std::thread::scope(|sc| {
+            let hs: Vec<_> = (0..ndb)
+                .map(|d| {
+                    let dir = root.join(format!("{}-{}", tag, d));
+                    sc.spawn(move || run_many_db(&dir, ops, d * per_db, ((d + 1) * per_db).min(MF_TABLES), pragmas, explicit_close, false))
+                })
+                .collect();
+            hs.into_iter().map(|h| h.join().unwrap_or_default()).collect()
+        })
+    };
+    let mut out = MfRun::default();
+    if let Some(o) = parts.iter().find_map(|p| p.create_err.clone()) {
+        out.outs.push(o);
+        return out;
+    }
+    // per-op outcome: routed ops have one observer; broadcast ops combine (first non-ok in database order)
+    let mut outs: Vec<Option<Obs>> = vec![None; ops.len()];
+    for p in &parts {
+        for (n, o) in &p.outs {
+            match &outs[*n] {
+                None => outs[*n] = Some(o.clone()),
+                Some(prev) => {
+                    if prev.status == "ok" && o.status != "ok" {
+                        outs[*n] = Some(o.clone());
                     }
                 }
-                comb
             }
-        };
-        out.outs.push(o);
-        if ndb == 1 && n % 24 == 0 {
-            out.max_mapped = out.max_mapped.max(mapped_files(&hs[0].path));
         }
     }
-    out.fin = mf_observe(&mut hs, per_db);
-    if ndb == 1 {
-        out.max_mapped = out.max_mapped.max(mapped_files(&hs[0].path));
-        out.files_on_disk = count_files(&hs[0].path);
-    }
+    out.outs = outs.into_iter().map(|o| o.unwrap_or_else(Obs::skipped)).collect();
     let mut reopen = Obs::ok();
-    for h in hs.iter_mut() {
-        let o = h.reopen(false);
-        if o.status != "ok" && reopen.status == "ok" {
-            reopen = o;
+    for p in parts {
+        out.fin.extend(p.fin);
+        out.after.extend(p.after);
+        if let Some(r) = p.reopen {
+            if r.status != "ok" && reopen.status == "ok" {
+                reopen = r;
+            }
         }
-    }
-    if reopen.status == "ok" {
-        out.after = mf_observe(&mut hs, per_db);
+        out.pragma_errs.extend(p.pragma_errs);
+        out.max_frames = out.max_frames.max(p.max_frames);
+        out.max_mapped = out.max_mapped.max(p.max_mapped);
+        out.files_on_disk = out.files_on_disk.max(p.files_on_disk);
     }
     out.reopen = Some(reopen);
-    for h in hs.iter_mut() {
-        out.pragma_errs.extend(h.pragma_errs.clone());
-        out.max_frames = out.max_frames.max(h.max_frames);
-        let _ = h.close();
-        let _ = std::fs::remove_dir_all(&h.path);
-    }
     out
+}
+
+fn obs_to_j(o: &Obs) -> J {
+    json!({"s": o.status, "n": o.n, "r": o.rows, "m": o.msg})
+}
+
+fn obs_from_j(v: &J) -> Obs {
+    Obs { status: v["s"].as_str().unwrap_or("").to_string(), n: v["n"].as_u64().map(|x| x as usize), rows: v["r"].as_array().map(|a| a.iter().map(|x| x.as_str().unwrap_or("").to_string()).collect()), msg: v["m"].as_str().map(|s| s.to_string()) }
+}
+
+impl MfRun {
+    fn to_json(&self) -> J {
+        let lst = |v: &Vec<(String, String, Obs)>| v.iter().map(|(a, b, o)| json!([a, b, obs_to_j(o)])).collect::<Vec<_>>();
+        json!({"outs": self.outs.iter().map(obs_to_j).collect::<Vec<_>>(), "fin": lst(&self.fin), "after": lst(&self.after), "reopen": self.reopen.as_ref().map(obs_to_j),
+            "pragma_errs": self.pragma_errs.iter().map(|(p, o)| json!([p, obs_to_j(o)])).collect::<Vec<_>>(), "max_mapped": self.max_mapped, "files_on_disk": self.files_on_disk, "max_frames": self.max_frames})
+    }
+    fn from_json(v: &J) -> MfRun {
+        let lst = |v: &J| v.as_array().map(|a| a.iter().map(|x| (x[0].as_str().unwrap_or("").to_string(), x[1].as_str().unwrap_or("").to_string(), obs_from_j(&x[2]))).collect::<Vec<_>>()).unwrap_or_default();
+        MfRun {
+            outs: v["outs"].as_array().map(|a| a.iter().map(obs_from_j).collect()).unwrap_or_default(),
+            fin: lst(&v["fin"]),
+            after: lst(&v["after"]),
+            reopen: if v["reopen"].is_null() { None } else { Some(obs_from_j(&v["reopen"])) },
+            pragma_errs: v["pragma_errs"].as_array().map(|a| a.iter().map(|x| (x[0].as_str().unwrap_or("").to_string(), obs_from_j(&x[1]))).collect()).unwrap_or_default(),
+            max_mapped: v["max_mapped"].as_u64().unwrap_or(0) as usize,
+            files_on_disk: v["files_on_disk"].as_u64().unwrap_or(0) as usize,
+            max_frames: v["max_frames"].as_u64().unwrap_or(0),
+        }
+    }
 }
 
 fn mf_first_diff(ops: &[MOp], a: &MfRun, b: &MfRun) -> Option<Diff> {
@@ -1459,71 +1594,74 @@ fn mf_first_diff(ops: &[MOp], a: &MfRun, b: &MfRun) -> Option<Diff> {
     None
 }
 
-/// one many-files job: the logical history under one configuration (None = no pragma), run on one database
-/// (> 64 files) and split over 9 databases; configured jobs also run the one-database baseline themselves
-fn process_many_files(idx: usize, ci: usize, ops: &[MOp], cfg: Option<Cfg>, explicit_close: bool, shrink_budget: usize, sh: &Shared) -> HistResult {
-    let mut res = HistResult { idx: idx * 100 + ci, kind: "many_files".into(), ..Default::default() };
-    let root = &sh.root;
-    let ohash = fnv(format!("{:?}", ops.iter().map(|o| &o.sql).collect::<Vec<_>>()).as_bytes());
+/// one many-files job = ONE run (one database with > 64 files, or the split over 9 databases) under one
+/// configuration; the parent compares the serialised runs
+fn process_many_run(idx: usize, ci: usize, split: bool, ops: &[MOp], cfg: Option<Cfg>, explicit_close: bool, sh: &Shared) -> HistResult {
+    let mut res = HistResult { idx: idx * 1000 + ci * 10 + split as usize, kind: "many_files".into(), ..Default::default() };
     let pragmas: Vec<Pragma> = cfg.map(|c| c.pragmas(4)).unwrap_or_default();
-    let label = cfg.map(|c| c.label()).unwrap_or_else(|| "baseline (no pragma)".into());
-    let one = run_many(root, &format!("mf{}-{}-one", idx, ci), ops, &pragmas, MF_TABLES, explicit_close);
-    let split = run_many(root, &format!("mf{}-{}-split", idx, ci), ops, &pragmas, MF_SPLIT, explicit_close);
-    res.evals += 2;
-    *res.counters.entry("many_files_runs".into()).or_insert(0) += 2;
-    res.maxima.insert("many_files_max_mapped_files".into(), one.max_mapped as u64);
-    res.maxima.insert("many_files_files_on_disk".into(), one.files_on_disk as u64);
-    res.maxima.insert("many_files_statements".into(), ops.len() as u64);
-    // eviction measured: more table/index files on disk than were ever mapped at once
-    if one.files_on_disk > 64 && one.max_mapped > 0 && one.max_mapped < one.files_on_disk {
-        res.nontrivial.push(ohash ^ fnv(label.as_bytes()) ^ 0x4d46);
-        *res.counters.entry("many_files_runs_with_eviction".into()).or_insert(0) += 1;
-    }
-    if cfg.map(|c| c.wal).unwrap_or(false) && one.max_frames > 0 {
-        *res.counters.entry("many_files_runs_with_wal_frames".into()).or_insert(0) += 1;
-    }
-    // (a) one database with > 64 files vs the same history split over databases that never evict
-    if let Some(d) = mf_first_diff(ops, &split, &one) {
-        let want = (d.kind.clone(), d.what.clone());
-        let mut b = if sh.late(0.5) { 0 } else { shrink_budget };
-        let mut best = d.clone();
-        let mut test = |c: &[MOp]| {
-            let s = run_many(root, &format!("mf{}-{}-s-split", idx, ci), c, &pragmas, MF_SPLIT, explicit_close);
-            let o = run_many(root, &format!("mf{}-{}-s-one", idx, ci), c, &pragmas, MF_TABLES, explicit_close);
-            match mf_first_diff(c, &s, &o) {
-                Some(d2) if d2.kind == want.0 && d2.what == want.1 => {
-                    best = d2;
-                    true
-                }
-                _ => false,
+    let tag = format!("mf{}-{}-{}", idx, ci, if split { "split" } else { "one" });
+    let t0 = Instant::now();
+    let run = run_many(&sh.root, &tag, ops, &pragmas, if split { MF_SPLIT } else { MF_TABLES }, explicit_close);
+    res.maxima.insert("many_files_slowest_run_s".into(), t0.elapsed().as_secs());
+    res.evals += 1;
+    *res.counters.entry("many_files_runs".into()).or_insert(0) += 1;
+    res.extra = Some(json!({"mf": idx, "ci": ci, "split": split, "run": run.to_json()}));
+    res
+}
+
+/// parent side: compare the runs of one many-files history
+fn judge_many_files(ctx: &mut Ctx, idx: usize, ops: &[MOp], cfgs: &[Option<Cfg>], runs: &BTreeMap<(usize, bool), MfRun>) {
+    let ohash = fnv(format!("{:?}", ops.iter().map(|o| &o.sql).collect::<Vec<_>>()).as_bytes());
+    let context = |d: &Diff| -> J {
+        // the earlier ops on the same table (the ops are self-describing; no ddmin for this variant)
+        match d.at.and_then(|i| ops[i].table.map(|t| (i, t))) {
+            Some((i, t)) => json!(ops[..i].iter().filter(|o| o.table == Some(t) || o.table.is_none()).skip(2).map(|o| o.sql.chars().take(160).collect::<String>()).collect::<Vec<_>>()),
+            None => J::Null,
+        }
+    };
+    for (ci, cfg) in cfgs.iter().enumerate() {
+        let label = cfg.map(|c| c.label()).unwrap_or_else(|| "baseline (no pragma)".into());
+        let (one, split) = match (runs.get(&(ci, false)), runs.get(&(ci, true))) {
+            (Some(a), Some(b)) => (a, b),
+            _ => {
+                ctx.count("many_files_pairs_incomplete", 1);
+                continue;
             }
         };
-        let min_ops = if b > 0 { ddmin(ops, &mut b, &mut test) } else { ops.to_vec() };
-        let sig = format!("C42/many_files/{}:{}", d.kind, d.what);
-        res.violations.push((
-            "many_files".into(),
-            sig,
-            json!({"config": label, "compared": "one database holding all 72 tables + 72 indexes  vs  the same logical history split over 9 databases of 8 tables", "first_difference": {"kind": best.kind, "what": best.what, "statement_index": best.at, "sql": best.sql, "split_databases": best.base, "one_database": best.got},
-            "minimal_ops": min_ops.iter().take(400).map(|o| o.sql.chars().take(200).collect::<String>()).collect::<Vec<_>>(), "original_ops": ops.len(), "files_on_disk": one.files_on_disk, "max_mapped_files": one.max_mapped}),
-        ));
-    }
-    // (b) across configurations (one-database runs): this configuration vs no pragma
-    if let Some(c) = cfg {
-        let b0 = run_many(root, &format!("mf{}-{}-base", idx, ci), ops, &[], MF_TABLES, explicit_close);
-        res.evals += 1;
-        *res.counters.entry("many_files_runs".into()).or_insert(0) += 1;
-        if let Some(d) = mf_first_diff(ops, &b0, &one) {
-            // does the split run differ from the baseline the same way? then it is not about many files
-            let also_split = mf_first_diff(ops, &b0, &split).map(|d2| d2.kind == d.kind && d2.what == d.what).unwrap_or(false);
-            let ps = c.pragmas(4).iter().filter(|p| !(p.name == "synchronous" && p.value == "FULL") && !(p.name == "wal_autoflush" && p.value == "ON") && !(p.name == "wal" && p.value == "OFF")).map(|p| p.sig()).collect::<Vec<_>>().join("+");
-            let sig = format!("C42/many_files/config:{}/{}:{}{}", ps, d.kind, d.what, if also_split { "/also_with_few_files" } else { "" });
-            res.violations.push(("many_files_config".into(), sig, json!({"config": label, "compared": "one database with 72 tables under this configuration vs under no pragma", "first_difference": {"kind": d.kind, "what": d.what, "statement_index": d.at, "sql": d.sql, "baseline": d.base, "configured": d.got}, "same_difference_with_few_tables_per_database": also_split})));
+        ctx.count("many_files_pairs_compared", 1);
+        let cur = *ctx.counters.get("many_files_max_mapped_files").unwrap_or(&0);
+        ctx.counters.insert("many_files_max_mapped_files".into(), cur.max(one.max_mapped as u64));
+        let cur = *ctx.counters.get("many_files_files_on_disk").unwrap_or(&0);
+        ctx.counters.insert("many_files_files_on_disk".into(), cur.max(one.files_on_disk as u64));
+        // eviction measured: more table/index files on disk than were ever mapped at once
+        if one.files_on_disk > 64 && one.max_mapped > 0 && one.max_mapped < one.files_on_disk {
+            ctx.nontrivial(ohash ^ fnv(label.as_bytes()) ^ 0x4d46);
+            ctx.count("many_files_runs_with_eviction", 1);
+        }
+        if cfg.map(|c| c.wal).unwrap_or(false) && one.max_frames > 0 {
+            ctx.count("many_files_runs_with_wal_frames", 1);
+        }
+        // (a) one database with > 64 files vs the same history split over databases that never evict
+        if let Some(d) = mf_first_diff(ops, split, one) {
+            let sig = format!("C42/many_files/{}:{}", d.kind, d.what);
+            ctx.violation("many_files", &sig, json!({"config": label, "compared": "one database holding all 72 tables + 72 indexes  vs  the same logical history split over 9 databases of 8 tables", "first_difference": {"kind": d.kind, "what": d.what, "statement_index": d.at, "sql": d.sql, "split_databases": d.base, "one_database": d.got}, "earlier_ops_on_this_table": context(&d), "ops": ops.len(), "files_on_disk": one.files_on_disk, "max_mapped_files": one.max_mapped}));
+        }
+        // (b) across configurations (one-database runs): this configuration vs no pragma
+        if let (Some(c), Some(b0)) = (cfg, runs.get(&(0, false))) {
+            if ci > 0 {
+                if let Some(d) = mf_first_diff(ops, b0, one) {
+                    // does the split run differ from the baseline the same way? then it is not about many files
+                    let also_split = mf_first_diff(ops, b0, split).map(|d2| d2.kind == d.kind && d2.what == d.what).unwrap_or(false);
+                    let ps = c.pragmas(4).iter().filter(|p| !(p.name == "synchronous" && p.value == "FULL") && !(p.name == "wal_autoflush" && p.value == "ON") && !(p.name == "wal" && p.value == "OFF")).map(|p| p.sig()).collect::<Vec<_>>().join("+");
+                    let sig = format!("C42/many_files/config:{}/{}:{}{}", ps, d.kind, d.what, if also_split { "/also_with_few_files" } else { "" });
+                    ctx.violation("many_files_config", &sig, json!({"config": label, "compared": "one database with 72 tables under this configuration vs under no pragma", "first_difference": {"kind": d.kind, "what": d.what, "statement_index": d.at, "sql": d.sql, "baseline": d.base, "configured": d.got}, "earlier_ops_on_this_table": context(&d), "same_difference_with_few_tables_per_database": also_split}));
+                }
+            }
+        }
+        if ci == 0 && idx == 0 {
+            ctx.sample(json!({"many_files_history": {"ops": ops.len(), "ops_after_ddl": ops.iter().skip(2 * MF_TABLES).take(6).map(|o| o.sql.chars().take(120).collect::<String>()).collect::<Vec<_>>(), "files_on_disk": one.files_on_disk, "max_mapped_files": one.max_mapped}}));
         }
     }
-    if ci == 0 && idx == 0 {
-        res.sample = Some(json!({"many_files_history": {"ops": ops.len(), "ops_after_ddl": ops.iter().skip(2 * MF_TABLES).take(6).map(|o| o.sql.chars().take(120).collect::<String>()).collect::<Vec<_>>(), "files_on_disk": one.files_on_disk, "max_mapped_files": one.max_mapped}}));
-    }
-    res
 }
 
 // ------------------------------------------------------------------------------------------------
@@ -1532,46 +1670,66 @@ fn process_many_files(idx: usize, ci: usize, ops: &[MOp], cfg: Option<Cfg>, expl
 
 enum Job {
     Hist(usize, Hist, Vec<Cfg>),
-    Many(usize, usize, Vec<MOp>, Option<Cfg>, bool),
+    /// (history, config index, split?, ops, config, explicit_close)
+    Many(usize, usize, bool, std::sync::Arc<Vec<MOp>>, Option<Cfg>, bool),
+}
+
+struct ManyHist {
+    ops: std::sync::Arc<Vec<MOp>>,
+    cfgs: Vec<Option<Cfg>>,
 }
 
 /// the job list is a pure function of (tier, seed): parent and workers build the same list
-fn build_jobs(seed: u64, quick: bool) -> Vec<Job> {
+fn build_jobs(seed: u64, quick: bool) -> (Vec<Job>, Vec<ManyHist>) {
     let mut rng = Rng::derive(seed, 42);
-    let (nhist, ncfg, max_stmts) = if quick { (20usize, 6usize, 34usize) } else { (300, 24, 44) };
+    let (nhist, ncfg, max_stmts) = if quick { (20usize, 6usize, 30usize) } else { (300, 24, 44) };
     let mut jobs: Vec<Job> = vec![];
+    let mut many: Vec<ManyHist> = vec![];
     // many-files jobs first (they are the longest)
-    let n_mf = if quick { 1 } else { 5 };
+    let n_mf = if quick { 1 } else { 3 };
     for i in 0..n_mf {
         let mut r = Rng::derive(seed, 4200 + i as u64);
         let rounds = if quick { 3 } else { r.usize(4, 8) };
-        let ops = gen_many_files(&mut r, rounds);
+        let ops = std::sync::Arc::new(gen_many_files(&mut r, rounds));
         let mut cfgs: Vec<Option<Cfg>> = vec![None];
         if quick {
             cfgs.push(Some(Cfg { wal: true, sync: 1, autoflush: r.chance(1, 2), tiny: true }));
         } else {
             let mut picks = pick_cfgs(&mut r, 6);
             picks.retain(|c| c.wal);
-            picks.truncate(3);
+            picks.truncate(2);
             cfgs.extend(picks.into_iter().map(Some));
         }
         let explicit_close = r.chance(1, 2);
-        for (ci, c) in cfgs.into_iter().enumerate() {
-            jobs.push(Job::Many(i, ci, ops.clone(), c, explicit_close));
+        for (ci, c) in cfgs.iter().enumerate() {
+            // the one-database runs are the slowest: first
+            jobs.push(Job::Many(i, ci, false, ops.clone(), *c, explicit_close));
         }
+        for (ci, c) in cfgs.iter().enumerate() {
+            jobs.push(Job::Many(i, ci, true, ops.clone(), *c, explicit_close));
+        }
+        many.push(ManyHist { ops, cfgs });
     }
+    // thorough: all 24 configurations per history, in two waves (a covering set of 6 for every history first, the
+    // other 18 afterwards), so that a short wall budget costs configurations per history, not histories
+    let mut second_wave: Vec<Job> = vec![];
     for i in 0..nhist {
         let h = gen_history(&mut rng, max_stmts);
-        let cfgs = if ncfg >= 24 { all_cfgs() } else { pick_cfgs(&mut rng, ncfg) };
-        jobs.push(Job::Hist(i, h, cfgs));
+        let first = pick_cfgs(&mut rng, 6);
+        if ncfg >= 24 {
+            let rest: Vec<Cfg> = all_cfgs().into_iter().filter(|c| !first.contains(c)).collect();
+            second_wave.push(Job::Hist(100_000 + i, h.clone(), rest));
+        }
+        jobs.push(Job::Hist(i, h, first));
     }
-    jobs
+    jobs.extend(second_wave);
+    (jobs, many)
 }
 
 /// worker process: claims jobs (first come first served through claim files), appends one JSON line per job
 fn worker(a: &Args, k: usize, root: PathBuf, budget_s: f64) -> i32 {
     let quick = a.tier == "quick";
-    let jobs = build_jobs(a.seed, quick);
+    let (jobs, _) = build_jobs(a.seed, quick);
     let sh = Shared { root: root.clone(), max_minimise_per_sig: if quick { 1 } else { 2 }, known: known_sigs(), start: Instant::now(), budget_s };
     let out_path = root.join(format!("worker-{}.jsonl", k));
     let mut out = String::new();
@@ -1579,15 +1737,24 @@ fn worker(a: &Args, k: usize, root: PathBuf, budget_s: f64) -> i32 {
         if !sh.claim(&format!("claim-job-{}", j)) {
             continue;
         }
-        if sh.late(1.0) {
+        if sh.late(0.8) && matches!(job, Job::Hist(..)) {
             out.push_str(&json!({"job": j, "skipped": true}).to_string());
             out.push('\n');
             let _ = std::fs::write(&out_path, &out);
             continue;
         }
         let _ = std::fs::write(root.join(format!("worker-{}.current", k)), format!("{}", j));
-        let r = match job {
-            Job::Hist(i, h, cfgs) => match catch(|| process_history(*i, h, cfgs, &sh)) {
+        let t0 = Instant::now();
+        let mut r = match job {
+            Job::Hist(i, h, cfgs) => match catch(|| {
+                let mut fl = |partial: &HistResult| {
+                    // the parent may kill this worker at its hard deadline: keep what is established so far
+                    let mut v = partial.to_json(j);
+                    v["partial"] = json!(true);
+                    let _ = std::fs::write(&out_path, format!("{}{}\n", out, v));
+                };
+                process_history(*i, h, cfgs, &sh, &mut fl)
+            }) {
                 Ok(r) => r,
                 Err(p) => {
                     let mut r = HistResult { idx: *i, kind: "history".into(), ..Default::default() };
@@ -1595,7 +1762,7 @@ fn worker(a: &Args, k: usize, root: PathBuf, budget_s: f64) -> i32 {
                     r
                 }
             },
-            Job::Many(i, ci, ops, cfg, explicit_close) => match catch(|| process_many_files(*i, *ci, ops, *cfg, *explicit_close, if quick { 0 } else { 30 }, &sh)) {
+            Job::Many(i, ci, split, ops, cfg, explicit_close) => match catch(|| process_many_run(*i, *ci, *split, ops, *cfg, *explicit_close, &sh)) {
                 Ok(r) => r,
                 Err(p) => {
                     let mut r = HistResult { idx: *i, kind: "many_files".into(), ..Default::default() };
@@ -1604,6 +1771,10 @@ fn worker(a: &Args, k: usize, root: PathBuf, budget_s: f64) -> i32 {
                 }
             },
         };
+        if r.kind == "history" {
+            r.maxima.insert("slowest_history_job_s".into(), t0.elapsed().as_secs());
+        }
+        r.maxima.insert("last_job_finished_at_s".into(), sh.start.elapsed().as_secs());
         out.push_str(&r.to_json(j).to_string());
         out.push('\n');
         let _ = std::fs::write(&out_path, &out);
@@ -1633,8 +1804,8 @@ pub fn run(a: &Args) -> i32 {
     }
     let quick = ctx.quick();
     let scratch = Scratch::new("c42");
-    let budget_s = if quick { 42.0f64 } else { 500.0 };
-    let jobs = build_jobs(a.seed, quick);
+    let budget_s = if quick { 40.0f64 } else { 500.0 };
+    let (jobs, many) = build_jobs(a.seed, quick);
     let nworkers = std::thread::available_parallelism().map(|n| n.get()).unwrap_or(4).clamp(2, 14).min(jobs.len());
     let exe = match std::env::current_exe() {
         Ok(e) => e,
@@ -1655,15 +1826,38 @@ pub fn run(a: &Args) -> i32 {
             Err(e) => ctx.inconclusive(&format!("cannot spawn worker {}: {}", k, e)),
         }
     }
+    // hard wall-clock bound: workers still running at the deadline are killed; finished (and partial) job results
+    // were already written
+    let hard_deadline = if quick { 50.0 } else { 565.0 };
+    let t_start = Instant::now();
+    let mut killed = 0u64;
     for (k, mut c) in children {
-        let st = c.wait();
-        let ok = st.as_ref().map(|s| s.success()).unwrap_or(false);
+        let st = loop {
+            match c.try_wait() {
+                Ok(Some(st)) => break Ok(st),
+                Ok(None) => {
+                    if t_start.elapsed().as_secs_f64() > hard_deadline {
+                        let _ = c.kill();
+                        let _ = c.wait();
+                        killed += 1;
+                        break Err(());
+                    }
+                    std::thread::sleep(std::time::Duration::from_millis(50));
+                }
+                Err(_) => break Err(()),
+            }
+        };
+        let st = match st {
+            Ok(st) => st,
+            Err(()) => continue,
+        };
+        let ok = st.success();
         if !ok {
             // a worker died (abort / signal escapes catch_unwind): attribute to the job it was running
             let cur = std::fs::read_to_string(scratch.root.join(format!("worker-{}.current", k))).unwrap_or_default();
             let what = cur.trim().parse::<usize>().ok().and_then(|j| jobs.get(j)).map(|j| match j {
                 Job::Hist(i, h, _) => json!({"history_index": i, "history": hist_json(h)}),
-                Job::Many(i, ci, ..) => json!({"many_files_history": i, "config_index": ci}),
+                Job::Many(i, ci, split, ..) => json!({"many_files_history": i, "config_index": ci, "split": split}),
             });
             ctx.violation("no_abort", "C42/worker_process_died", json!({"worker": k, "exit": format!("{:?}", st), "job": what}));
         }
@@ -1681,14 +1875,18 @@ pub fn run(a: &Args) -> i32 {
     }
     let mut maxima: BTreeMap<String, u64> = BTreeMap::new();
     let mut samples_hist = 0;
+    let mut mf_runs: BTreeMap<usize, BTreeMap<(usize, bool), MfRun>> = BTreeMap::new();
     for (_, v) in results.iter() {
         if v["skipped"].as_bool().unwrap_or(false) {
             ctx.count("jobs_skipped_wall_budget", 1);
             continue;
         }
+        if v["partial"].as_bool().unwrap_or(false) {
+            ctx.count("jobs_cut_short_at_hard_deadline", 1);
+        }
         ctx.evals(v["evals"].as_u64().unwrap_or(0));
         if v["kind"] == "history" {
-            ctx.count("histories", 1);
+            ctx.count(if v["idx"].as_u64().unwrap_or(0) >= 100_000 { "histories_second_wave" } else { "histories" }, 1);
         } else {
             ctx.count("many_files_jobs", 1);
         }
@@ -1721,9 +1919,21 @@ pub fn run(a: &Args) -> i32 {
         for x in v["violations"].as_array().cloned().unwrap_or_default() {
             ctx.violation(x[0].as_str().unwrap_or(""), x[1].as_str().unwrap_or(""), x[2].clone());
         }
+        if !v["extra"]["run"].is_null() {
+            let e = &v["extra"];
+            mf_runs.entry(e["mf"].as_u64().unwrap_or(0) as usize).or_default().insert((e["ci"].as_u64().unwrap_or(0) as usize, e["split"].as_bool().unwrap_or(false)), MfRun::from_json(&e["run"]));
+        }
+    }
+    for (i, mh) in many.iter().enumerate() {
+        if let Some(runs) = mf_runs.get(&i) {
+            judge_many_files(&mut ctx, i, &mh.ops, &mh.cfgs, runs);
+        }
     }
     if results.len() < jobs.len() {
         ctx.count("jobs_without_result", (jobs.len() - results.len()) as u64);
+    }
+    if killed > 0 {
+        ctx.count("workers_killed_at_hard_deadline", killed);
     }
     for (k, v) in maxima {
         ctx.counters.insert(k, v);
